@@ -245,3 +245,36 @@ def attribute_namespace_agreement(ctx: Ctx) -> None:
     pa = ctx.repo.func("xsdata.codegen.handlers.add_attribute_substitutions:AddAttributeSubstitutions.process_attribute")
     ctx.ob("process_attribute recurses into every inserted substitution", A("_.attrs.insert(_,_);self.process_attribute(_,_)") in asrc(pa), at=pa, construct="substitution recursion", msg="substitutions of substitutions are not added")
     ctx.ob("process_attribute marks a type substituted only after testing the flag", A("if_.substituted:;continue;_.substituted=True") in asrc(pa), at=pa, construct="substituted flag", msg="flag protocol changed")
+
+
+@rule("C02.R7")
+def handler_state_discipline(ctx: Ctx) -> None:
+    """Handler instances live for a whole generator run: substitution registration is unconditional and any memo they keep is keyed by everything its value depends on."""
+    from .c14 import _control_sources, _flow_sources
+
+    cs = ctx.repo.func("xsdata.codegen.handlers.add_attribute_substitutions:AddAttributeSubstitutions.create_substitutions")
+    g = build_cfg(cs.node)
+    outer = [n for n in g.nodes if n.kind == "for" and unparse(n.ast.iter) == "self.container"]
+    inner = [n for n in g.nodes if n.kind == "for" and unparse(n.ast.iter).endswith(".substitutions")]
+    ok = len(outer) == 1 and len(inner) == 1 and inner[0].id in [m for m, lab in g.succ[outer[0].id] if lab == "iter"]
+    ctx.ob("create_substitutions registers the substitutions of EVERY class of the container (no tag filter)", ok, at=cs, construct="substitution registration",
+           msg="the validator merges an element into its same-named complex type: filtering on the class tag drops those substitution-group members, and valid documents using them are rejected")
+    n = 0
+    for ci in ctx.repo.classes.values():
+        if not ci.module.name.startswith("xsdata.codegen.handlers"):
+            continue
+        for m in ci.methods.values():
+            if m.name in ("__init__",):
+                continue
+            for st, tgt, v in stores(m.node):
+                if isinstance(tgt, ast.Subscript) and is_self_attr(tgt.value) and v is not None and not isinstance(st, (ast.AugAssign, ast.Delete)):
+                    # a memo = the same attribute is also consulted in this function (check-then-build); plain registries are not memos
+                    reads = [x for x in walk_no_nested(m.node) if is_self_attr(x, tgt.value.attr) and isinstance(x.ctx, ast.Load) and x is not tgt.value]
+                    if not reads:
+                        continue
+                    n += 1
+                    params = [a.arg for a in m.params if a.arg != "self"]
+                    missing = sorted((_flow_sources(m, v, params) | _control_sources(m, st, params)) - _flow_sources(m, tgt.slice, params))
+                    ctx.ob(f"{ci.name}.{m.name}: memo self.{tgt.value.attr}[{unparse(tgt.slice)[:30]}] is keyed by every parameter its value depends on", not missing, at=m, node=st,
+                           msg=f"the stored value also depends on {missing}: whichever call comes first decides the answer for the rest of the run (e.g. an element and an attribute with the same qname)")
+    ctx.note("C02.R7 handler memo stores", n)
